@@ -113,6 +113,11 @@ func GenCaseOpt(r *core.Rng, id int, getter bool) *conv.Case {
 			defs = append(defs, tw)
 		}
 	}
+	if variant == 3 && id%2 == 0 {
+		if tw := gen.InlineTwinOp(r, s, "TwinIface"); tw != nil {
+			defs = append(defs, tw)
+		}
+	}
 	cfg.ClientGetter = ""
 	if getter && id%2 == 0 {
 		cfg.ClientGetter = "example.com/cg.GetClient"
